@@ -977,6 +977,38 @@ func (o *ovsdbClient) monitor(ctx context.Context, cookie MonitorCookie, reconne
 	} else {
 		args = ovsdb.NewMonitorArgs(dbName, cookie, requests)
 	}
+	// Defer incoming updates for as long as this monitor is being set up. An
+	// update that follows the monitor reply on the wire can be handled before
+	// the reply's contents are in the cache; applied then, it would hit rows
+	// the cache does not have yet. Deferred updates are replayed in order once
+	// the initial contents are in place.
+	db.cacheMutex.Lock()
+	wasDeferring := db.deferUpdates
+	db.deferUpdates = true
+	db.cacheMutex.Unlock()
+	// undefer goes back to applying updates directly if the set-up fails
+	undefer := func() {
+		if wasDeferring {
+			return
+		}
+		db.cacheMutex.Lock()
+		defer db.cacheMutex.Unlock()
+		db.deferUpdates = false
+		for _, update := range db.deferredUpdates {
+			if update.updates != nil {
+				if err := db.cache.Populate(*update.updates); err != nil {
+					o.logger.V(3).Error(err, "applying deferred update")
+				}
+			}
+			if update.updates2 != nil {
+				if err := db.cache.Populate2(*update.updates2); err != nil {
+					o.logger.V(3).Error(err, "applying deferred update")
+				}
+			}
+		}
+		db.deferredUpdates = make([]*bufferedUpdate, 0)
+	}
+
 	var err error
 	var tableUpdates interface{}
 
@@ -999,10 +1031,12 @@ func (o *ovsdbClient) monitor(ctx context.Context, cookie MonitorCookie, reconne
 		}
 		tableUpdates = reply.Updates
 	default:
+		undefer()
 		return fmt.Errorf("unsupported monitor method: %v", monitor.Method)
 	}
 
 	if err != nil {
+		undefer()
 		if err == rpc2.ErrShutdown {
 			return ErrNotConnected
 		}
